@@ -15,7 +15,7 @@ def pool_ops():
                         st.one_of(st.none(), st.none(), st.dictionaries(name_any, st.sampled_from([-1, 0, 1, 1, 2, 5]),
                                                                          min_size=0, max_size=3))).map(list)
     merge = st.tuples(st.just('merge'), st.integers(0, 5), st.integers(0, 5)).map(list)
-    return st.one_of(add, add, reserve, reserve, reserve, release, release, merge)
+    return st.one_of(*([add] * 4 + [reserve] * 6 + [release] * 4 + [merge] * 2 + [st.just(['reinit'])]))
 
 
 def pool_cases(max_ops):
@@ -36,7 +36,7 @@ wreq = st.dictionaries(wname, st.sampled_from([0, 1, 1, 1, 2, 2, 3]), min_size=1
 
 
 def behaviour(depth=2):
-    base = st.one_of(st.just(['none']), st.just(['same']), st.just(['same']),
+    base = st.one_of(st.just(['none']), st.just(['same']), st.just(['same']), st.just(['twice']),
                      st.tuples(st.just('other'), wreq).map(list),
                      st.tuples(st.just('release'), st.integers(0, 4)).map(list),
                      st.tuples(st.just('add'), wname, st.sampled_from([-1, 1, 2])).map(list))
@@ -46,7 +46,7 @@ def behaviour(depth=2):
 
 
 def consume_behaviour(depth=2):
-    base = st.one_of(st.just(['none']), st.just(['same']), st.just(['same']),
+    base = st.one_of(st.just(['none']), st.just(['same']), st.just(['same']), st.just(['twice']),
                      st.tuples(st.just('other'), wreq).map(list))
     if depth <= 0:
         return base
@@ -109,3 +109,16 @@ def overcommit_waiter_cases(consume_only=True):
                                                            + [['advance', 1]]},
                      tb, st.sampled_from([2, 3, 4]), st.sampled_from([2, 3]), st.lists(reserve, min_size=2, max_size=4),
                      st.lists(cut, min_size=1, max_size=2), st.lists(register, min_size=1, max_size=3), tail)
+
+
+def fraction_cases(max_ops):
+    """Decimal amounts (0.1, 0.6, 1.1, 1.7 ...): a request fits exactly when capacity minus usage, computed in floating
+    point the way the statement spells it, is at least the amount - also when the difference lands exactly on it."""
+    amt = st.sampled_from([0.1, 0.2, 0.3, 0.6, 0.7, 1.1, 1.7, 2.3, 0.5, 1])
+    nm = st.sampled_from(['a', 'a', 'b'])
+    add = st.tuples(st.just('add'), nm, amt).map(list)
+    reserve = st.tuples(st.just('reserve'), st.dictionaries(nm, amt, min_size=1, max_size=2)).map(list)
+    release = st.tuples(st.just('release'), st.integers(0, 5), st.none()).map(list)
+    pre = st.lists(add, min_size=1, max_size=3)
+    return st.builds(lambda a, b: {'ops': a + b, 'decimal': True}, pre,
+                     st.lists(st.one_of(add, reserve, reserve, reserve, release, release), min_size=4, max_size=max_ops))
